@@ -9,6 +9,13 @@ Has(e, f) == f \in DOMAIN e
 Rej(clause) == PrintT(<<"REJECT", clause, l>>)
 Check(cond, clause) == IF cond THEN TRUE ELSE Rej(clause)
 
+\* the culture renders ':' or '/' as '.' or ',' and that separator follows an optional fraction: not delimited after all
+SepAmbiguous(e) ==
+  \E i \in 1..(Len(e.tokens) - 1) :
+     /\ e.tokens[i] \in OptFrac
+     /\ \/ e.tokens[i + 1] = ":" /\ e.time_sep \in {<<46>>, <<44>>}
+        \/ e.tokens[i + 1] = "/" /\ e.date_sep \in {<<46>>, <<44>>}
+
 \* does the law "parse(format(v)) = v" apply to this event?
 Applies(e) ==
   CASE e.roundtrip_builtin -> TRUE                       \* built-in round-trip / ISO patterns: every value
@@ -20,6 +27,10 @@ Applies(e) ==
          /\ Understood(e.tokens, DateVocab \cup TimeVocab) /\ DelimitedFor(e.type, e.tokens)
          /\ DateRepresentable(e.tokens, e.value, e.template, e.text_ok)
          /\ TimeRepresentable(e.tokens, e.value, e.ampm_ok)
+    [] e.type = "Duration" -> Understood(e.tokens, DurationVocab) /\ DelimitedFor("Offset", e.tokens) /\ DurationRepresentable(e.tokens, e.parts)
+    [] e.type = "Instant" ->
+         /\ Understood(e.tokens, (DateVocab \ {"c", "g", "gg"}) \cup TimeVocab) /\ Delimited(e.tokens)
+         /\ DateRepresentable(e.tokens, e.parts, e.template, e.text_ok) /\ TimeRepresentable(e.tokens, e.parts, e.ampm_ok)
     [] OTHER -> FALSE
 
 Step(e) ==
@@ -27,11 +38,16 @@ Step(e) ==
   /\ (Has(e, "again") => Check(e.again = e.text, "formatting_is_deterministic"))
   \* (every pattern type rejects the empty string by design, so a pattern of optional fields only makes no
   \*  promise for the values it renders as nothing)
-  /\ IF Has(e, "parsed_ok") /\ Len(e.text) > 0 /\ Applies(e)
+  /\ IF Has(e, "parsed_ok") /\ Len(e.text) > 0 /\ ~SepAmbiguous(e) /\ Applies(e)
      THEN /\ Check(e.parsed_ok, "representable_value_parses_back")
           /\ (e.parsed_ok => Check(e.parsed = e.value, "parsing_the_formatted_text_returns_the_original_value"))
      ELSE TRUE
-  /\ IF Has(e, "parsed_ok") /\ e.parsed_ok /\ Has(e, "reformat") /\ (e.roundtrip_builtin \/ DelimitedFor(e.type, e.tokens))
+  /\ IF Has(e, "parsed_ok") /\ e.parsed_ok /\ Has(e, "reformat") /\ ~SepAmbiguous(e)
+        /\ (e.roundtrip_builtin \/ (DelimitedFor(IF e.type = "Duration" THEN "Offset" ELSE e.type, e.tokens)
+                                     /\ (e.type = "Duration" => DurationNonRedundant(e.tokens))
+                                     \* text fields only where the culture's texts can be told apart when parsing
+                                     /\ (HasTok(e.tokens, {"t", "tt"}) => e.ampm_ok)
+                                     /\ (HasTok(e.tokens, {"MMM", "MMMM", "ddd", "dddd", "g", "gg"}) => e.text_ok)))
      THEN Check(e.reformat = e.text, "reformatting_a_parsed_text_reproduces_it")
      ELSE TRUE
 Init == l = 1
